@@ -2,6 +2,7 @@ mod common;
 mod corpus_gen;
 mod json;
 mod l1;
+mod macx;
 mod seqx;
 mod thrx;
 mod vals;
@@ -165,6 +166,75 @@ fn seqx_replay(path: &str, property: &str) -> i32 {
     }
 }
 
+fn macx_main(args: &Args) -> i32 {
+    if let Some(path) = args.get("replay") {
+        return macx_replay(path, args.get("property").unwrap_or(""));
+    }
+    let property = args.get("property").expect("--property").to_string();
+    let thorough = args.get("tier") == Some("thorough");
+    let shard = args.shard();
+    let suites = macx::suites_for(&property, thorough);
+    for (i, s) in suites.iter().enumerate() {
+        if i % shard.1 != shard.0 {
+            continue;
+        }
+        let t0 = std::time::Instant::now();
+        let r = macx::explore_suite(s, &property);
+        emit(
+            "SUITE",
+            J::obj()
+                .set("label", s.f.label())
+                .set("second", s.f2.map(|f| f.label()))
+                .set("alphabet", J::Arr(s.alphabet.iter().map(|o| J::Str(o.render())).collect()))
+                .set("depth", s.depth)
+                .set("histories", r.histories)
+                .set("runs", r.runs)
+                .set("steps", r.steps)
+                .set("choice_points", r.choice_points)
+                .set("distinct_observations", r.distinct_obs)
+                .set("sample", r.sample.clone())
+                .set("wall_s", t0.elapsed().as_secs_f64()),
+        );
+        for v in &r.violations {
+            emit("VIOLATION", v.to_json());
+        }
+    }
+    emit("DONE", J::obj().set("suites_total", suites.len()));
+    0
+}
+
+fn macx_replay(path: &str, property: &str) -> i32 {
+    let src = std::fs::read_to_string(path).expect("read replay file");
+    let j = json::parse(&src).expect("parse replay file");
+    let j = j.get("replay").cloned().unwrap_or(j);
+    let fid = j.get("function").and_then(|x| x.as_i64()).expect("function") as u32;
+    let f = thrx::func(fid);
+    let f2 = j.get("function2").and_then(|x| x.as_i64()).map(|x| thrx::func(x as u32));
+    let ops: Vec<macx::MOp> = j.get("ops").and_then(|x| x.as_arr()).unwrap().iter().filter_map(|o| macx::MOp::parse(o.as_str()?)).collect();
+    let choices: Vec<usize> = j.get("choices").and_then(|x| x.as_arr()).unwrap().iter().map(|x| x.as_i64().unwrap() as usize).collect();
+    let group: Vec<&'static l1::FnInfo> = j.get("group").and_then(|x| x.as_arr()).map(|a| a.iter().filter_map(|x| x.as_i64()).map(|x| thrx::func(x as u32)).collect()).unwrap_or_default();
+    let wash = matches!(j.get("wash"), Some(J::Bool(true)));
+    let suite = macx::Suite { f, f2, group, wash, alphabet: ops.clone(), depth: ops.len() };
+    let mut runs = Vec::new();
+    for _ in 0..2 {
+        let (lines, bad) = macx::replay_once(&suite, &ops, &choices, property);
+        runs.push((lines, bad));
+    }
+    for l in &runs[0].0 {
+        println!("{l}");
+    }
+    if runs[0] != runs[1] {
+        println!("MACHINERY-FAILURE: replay is not deterministic");
+        return 3;
+    }
+    println!("replayed twice with identical observations; violation reproduced: {}", runs[0].1);
+    if runs[0].1 {
+        1
+    } else {
+        0
+    }
+}
+
 fn thrx_main(args: &Args) -> i32 {
     if let Some(path) = args.get("replay") {
         return thrx_replay(path, args.get("property").unwrap_or(""));
@@ -272,6 +342,10 @@ fn main() {
             seqx_main(&args)
         }
         "thrx" => thrx_main(&args),
+        "macx" => {
+            vsched::sequential_mode(true);
+            macx_main(&args)
+        }
         other => {
             eprintln!("unknown engine {other}");
             2
